@@ -34,8 +34,8 @@ def do_import(pid, letter, root='/tmp/wt', as_letter=None):
     demo = open(os.path.join(src, 'demo.py')).read()
     # make the demo independent of the worktree it was written in
     demo = re.sub(r"^ROOT\s*=.*$", "ROOT = os.environ.get('GLOM_ROOT', '/repo')", demo, count=1, flags=re.M)
-    demo = re.sub(r"startswith\(\s*'/tmp/wt2?/%s'?\s*(\+\s*os\.sep|/')?\s*\)" % pid, "startswith(ROOT)", demo)
-    for r_ in ('/tmp/wt2', '/tmp/wt'):
+    demo = re.sub(r"startswith\(\s*'/tmp/wt[23]?/%s'?\s*(\+\s*os\.sep|/')?\s*\)" % pid, "startswith(ROOT)", demo)
+    for r_ in ('/tmp/wt3', '/tmp/wt2', '/tmp/wt'):
         demo = demo.replace("'%s/%s/'" % (r_, pid), "ROOT").replace("'%s/%s'" % (r_, pid), "ROOT")
     if 'GLOM_ROOT' not in demo:
         demo = ("import os, sys\nROOT = os.environ.get('GLOM_ROOT', '/repo')\nsys.path.insert(0, ROOT)\n" + demo)
@@ -140,6 +140,8 @@ if __name__ == '__main__':
         do_import(a[1], a[2])
     elif a[0] == 'import2':       # round 2: /tmp/wt2/<ID>/SEED/<A|B> -> seeded/<ID>-<C|D>
         do_import(a[1], a[2], root='/tmp/wt2', as_letter={'A': 'C', 'B': 'D'}[a[2]])
+    elif a[0] == 'import3':       # round 3: /tmp/wt3/<ID>/SEED/<A|B> -> seeded/<ID>-<E|F>
+        do_import(a[1], a[2], root='/tmp/wt3', as_letter={'A': 'E', 'B': 'F'}[a[2]])
     elif a[0] == 'verify':
         tier = 'quick'
         checks = None
